@@ -17,17 +17,18 @@ Local Open Scope list_scope.
    test of the adoption agency is not observably affected: these elements are scope markers, so a formatting
    element above them is "not in scope" and the algorithm returns before looking for a furthest block.)  search/isindex matter for the same loops (`<span><search></span>x`: the
    standard ignores </span>, html5ever closes span; `<span><isindex></span>x`: the other way round); keygen is never
-   on the stack of open elements, so its absence cannot be observed. *)
-Definition special_extra : list ename := [(NsHtml, "isindex")].
-Definition special_missing : list ename :=
-  [(NsHtml, "keygen"); (NsHtml, "search");
-   (NsMathml, "mi"); (NsMathml, "mo"); (NsMathml, "mn"); (NsMathml, "ms"); (NsMathml, "mtext");
-   (NsMathml, "annotation-xml"); (NsSvg, "foreignObject"); (NsSvg, "desc"); (NsSvg, "title")].
+   on the stack of open elements, so its absence cannot be observed.
+   REPAIRED in /repo (fix: commits d51f289 isindex, ac17be7 search, e1e375b foreign special elements): the lists
+   below were [isindex] / [keygen; search; mi; mo; mn; ms; mtext; annotation-xml; foreignObject; desc; title].
+   Only keygen remains (unobservable). *)
+Definition special_extra : list ename := [].
+Definition special_missing : list ename := [(NsHtml, "keygen")].
 
 (* D2  scope markers: MathML annotation-xml is missing from default_scope (and so from list item / button scope).
    FINDING (tree differs): `<p><math><annotation-xml encoding="text/html"><div>` - the standard does not see the p
    in button scope (div becomes a child of annotation-xml), html5ever closes p, math and annotation-xml. *)
-Definition scope_missing : list ename := [(NsMathml, "annotation-xml")].
+(* REPAIRED in /repo (fix: eedd895); the list was [annotation-xml]. *)
+Definition scope_missing : list ename := [].
 
 (* D3  check_body_end: rb and rtc are missing from the list of elements that may be open at </body>, </html>, EOF.
    Only the number of parse errors is affected (not part of the tree): reading difference / harmless. *)
@@ -38,7 +39,8 @@ Definition body_end_ok_missing : list ename := [(NsHtml, "rb"); (NsHtml, "rtc")]
    FINDING (tree differs): `<template><caption></caption><b><caption></caption> ` - the white space is inserted
    directly (in table text) by the standard, html5ever foster-parents it through "in body", which reconstructs
    the active formatting element b around it. *)
-Definition table_text_current_missing : list ename := [(NsHtml, "template")].
+(* REPAIRED in /repo (fix: 63ff1f2); the list was [template]. *)
+Definition table_text_current_missing : list ename := [].
 
 (* D5  in table body, "does not have a tbody, thead, or tfoot element in table scope": html5ever tests
    table, tbody, tfoot.  With a table element on the stack the extra "table" hides the missing "thead"; without one
@@ -46,18 +48,21 @@ Definition table_text_current_missing : list ename := [(NsHtml, "template")].
    FINDING (tree differs): `<template><thead><caption>x` - the standard closes thead and inserts caption, html5ever
    ignores <caption>;  fragment with context html:table, `<thead><tbody>` - tbody is dropped.
    (Witnesses found by the tree-model check, its deviation class dev:11.) *)
-Definition table_body_sections_extra : list ename := [(NsHtml, "table")].
-Definition table_body_sections_missing : list ename := [(NsHtml, "thead")].
+(* REPAIRED in /repo (fix: 7c702df); the lists were [table] / [thead]. *)
+Definition table_body_sections_extra : list ename := [].
+Definition table_body_sections_missing : list ename := [].
 
 (* D6  quirks: the public identifier prefix "+//Silmaril//dtd html Pro v0r11 19970101//" is missing.
    FINDING (quirks mode differs): `<!DOCTYPE html PUBLIC "+//Silmaril//dtd html Pro v0r11 19970101//EN">`
    gives no-quirks instead of quirks. *)
-Definition quirks_prefix_missing : list string := ["+//silmaril//dtd html pro v0r11 19970101//"].
+(* REPAIRED in /repo (fix: 3f69a61); the list was that prefix. *)
+Definition quirks_prefix_missing : list string := [].
 
 (* D7  quirks: html5ever tests force-quirks and name before iframe_srcdoc; the standard exempts an iframe srcdoc
    document from all quirks conditions.  FINDING (quirks mode differs, only with iframe_srcdoc = true):
    `<!DOCTYPE foo>` or `<!DOCTYPE>` gives quirks instead of no-quirks.  (Position of the QcSrcdoc arm: 2 vs 0.) *)
-Definition srcdoc_arm_position_html5ever : nat := 2.
+(* REPAIRED in /repo (fix: bec9d13); the position was 2. *)
+Definition srcdoc_arm_position_html5ever : nat := 0.
 Definition srcdoc_arm_position_whatwg : nat := 0.
 
 (* D8  doctypes without parse error: html5ever still accepts the six "obsolete permitted DOCTYPE" combinations that
@@ -73,11 +78,13 @@ Definition doctype_ok_extra : list (option string * option string * option strin
 (* D9  adjust foreign attributes: the attribute "xmlns" gets prefix Some "" (qualname!("" xmlns "xmlns")) where the
    standard says "(none)".  Observable through QualName.prefix of the attribute (Some(Prefix(""))) : reading
    difference unless the comparison of C02 distinguishes an empty prefix from no prefix. *)
-Definition foreign_attr_extra : list (string * qname) := [("xmlns", (Some "", NsXmlns, "xmlns"))].
-Definition foreign_attr_missing : list (string * qname) := [("xmlns", (None, NsXmlns, "xmlns"))].
+(* REPAIRED in /repo (fix: d8eed63); the lists were [xmlns -> (Some "", xmlns, xmlns)] / [xmlns -> (None, xmlns, xmlns)]. *)
+Definition foreign_attr_extra : list (string * qname) := [].
+Definition foreign_attr_missing : list (string * qname) := [].
 
 (* D10 break-out of foreign content: popping must stop at any HTML integration point; html5ever does not stop at a
    MathML annotation-xml element with encoding text/html / application/xhtml+xml.
    FINDING (tree differs): `<math><annotation-xml encoding="text/html"><svg><b>x` - b belongs inside
    annotation-xml, html5ever pops annotation-xml and math as well. *)
-Definition breakout_stop_missing : list string := ["annotation-xml-with-encoding"].
+(* REPAIRED in /repo (fix: b1d185d); the list was [annotation-xml-with-encoding]. *)
+Definition breakout_stop_missing : list string := [].
